@@ -49,7 +49,7 @@ func genC01(t *rapid.T) c01Scen {
 	s.Redis = rapid.IntRange(0, 4).Draw(t, "backend") == 0
 	nc := rapid.IntRange(1, 5).Draw(t, "nclients")
 	for i := 0; i < nc; i++ {
-		c := c01Client{V: rapid.SampledFrom([]int{4, 5, 5}).Draw(t, "v")}
+		c := c01Client{V: rapid.SampledFrom([]int{3, 4, 5, 5, 5}).Draw(t, "v")}
 		if c.V == 5 {
 			c.RM = rapid.SampledFrom([]int{0, 0, 0, 1, 2, 5}).Draw(t, "rm")
 		}
@@ -209,6 +209,12 @@ func expectedDeliveries(mode string, subs map[string]subSpec, clientIdx int, pub
 }
 
 func runC01(s c01Scen, c *ev.Case) *ev.Violation {
+	for _, cl := range s.Clients {
+		if cl.V == 3 {
+			c.Label("mqtt31_client")
+			break
+		}
+	}
 	cfg := fixture.BaseConfig()
 	cfg.MQTT.DeliveryMode = s.Mode
 	cfg, cleanupBackend, bv := withBackend(cfg, s.Redis, c)
